@@ -7,32 +7,24 @@ From J5V.lib Require Import Outcome Corr.
 From J5V.model Require Import ProtoPrintLit ProtoPrint ProtoLex ProtoLayout ProtoPrintCorr ProtoPrintFile ProtoParseFile
   ProtoPrintFileWf ProtoPrintFileErase ProtoPrintBytes.
 From J5V.proofs Require Import ProtoPrintFileFullProofs ProtoPrintFileWfProofs ProtoLexProofs ProtoPrintFileTextProofs
-  ProtoPrintFileXProofs.
+  ProtoPrintFileXProofs ProtoPrintBytesEraseProofs.
 From J5V.proofs Require ProtoPrintFileExample.
 Import ListNotations.
 Local Open Scope N_scope.
 
-Lemma tokens_eqb_eq : forall a b : list token, list_eqb token_eqb a b = true -> a = b.
-Proof.
-  induction a as [|x a IH]; destruct b as [|y b]; cbn; intro H; try discriminate; [reflexivity|].
-  apply andb_prop in H. destruct H as [H1 H2]. apply token_eqb_eq in H1. apply IH in H2. subst. reflexivity.
-Qed.
-
 Lemma bytes_modelled_parts gen imp D : bytes_modelled_b gen imp D = true ->
   unlocated_b D = true /\ gen_ok gen = true
-  /\ print_file_tokens (to_symtab (dfile_symtab imp D)) D = print_file_tokens_nc (to_symtab (dfile_symtab imp D)) D
   /\ is_layout (print_file_tokens_nc (to_symtab (dfile_symtab imp D)) D) (render_bytes gen imp D) = true.
 Proof.
   unfold bytes_modelled_b. intro H.
-  apply andb_prop in H. destruct H as [H Hl]. apply andb_prop in H. destruct H as [H Ht].
-  apply andb_prop in H. destruct H as [Hu Hg]. apply tokens_eqb_eq in Ht. auto.
+  apply andb_prop in H. destruct H as [H Hl]. apply andb_prop in H. destruct H as [Hu Hg]. auto.
 Qed.
 
 (* the lexer model on the rendered bytes yields exactly the (comment-free) tokens of the token-level theorem *)
 Theorem scan_render_bytes gen imp D : bytes_modelled_b gen imp D = true ->
   scan_text (render_bytes gen imp D) = Some (print_file_tokens_nc (to_symtab (dfile_symtab imp D)) D).
 Proof.
-  intro H. destruct (bytes_modelled_parts _ _ _ H) as (_ & _ & _ & Hl). exact (scan_layout _ _ Hl).
+  intro H. destruct (bytes_modelled_parts _ _ _ H) as (_ & _ & Hl). exact (scan_layout _ _ Hl).
 Qed.
 
 (* ... which, in the sub-class, are ALL the tokens the printer model writes (no comment pseudo tokens): the token
@@ -40,7 +32,8 @@ Qed.
 Theorem scan_render_bytes_tokens gen imp D : bytes_modelled_b gen imp D = true ->
   scan_text (render_bytes gen imp D) = Some (print_file_tokens (to_symtab (dfile_symtab imp D)) D).
 Proof.
-  intro H. destruct (bytes_modelled_parts _ _ _ H) as (_ & _ & Ht & Hl). rewrite Ht. exact (scan_layout _ _ Hl).
+  intro H. destruct (bytes_modelled_parts _ _ _ H) as (Hu & _ & Hl).
+  rewrite <- (print_tokens_unlocated _ D Hu). exact (scan_layout _ _ Hl).
 Qed.
 
 (* the rendering of the model depends on the descriptor only through lay_file: the canonical re-read descriptor
@@ -59,7 +52,7 @@ Theorem bytes_roundtrip_subclass gen imp D : wf_dfile imp D -> bytes_modelled_b 
           = print_file_tokens_nc (to_symtab (dfile_symtab imp D)) D
        /\ render_bytes gen imp D0 = text.
 Proof.
-  intros Hw H. cbv zeta. destruct (bytes_modelled_parts _ _ _ H) as (_ & _ & _ & Hl).
+  intros Hw H. cbv zeta. destruct (bytes_modelled_parts _ _ _ H) as (_ & _ & Hl).
   split; [exact (scan_layout _ _ Hl)|].
   exists (canon_file D).
   split; [exact (text_roundtrip imp D _ Hw Hl)|].
